@@ -446,6 +446,9 @@ fn once_source() -> BoxedStrategy<String> {
     let piece = prop_oneof![
         3 => data().prop_map(|d| format!("[{{{{ {d} }}}}]")),
         2 => data().prop_map(|d| format!("{{% set cap %}}<{{{{ {d} }}}}>{{% endset %}}{{{{ cap }}}}")),
+        // filters that leave their input as it is for these arguments
+        1 => (data(), crate::runner::one_of(&["indent(0)", "indent(width=0)", "indent(0, true)", "replace('', '')", "replace('zq', 'x')", "trim('')", "center(0)", "truncate(100000)", "default('x')", "string", "safe", "first|default(cap)"]))
+            .prop_map(|(d, f)| format!("{{% set cap %}}<{{{{ {d} }}}}>{{% endset %}}[{{{{ cap|{f} }}}}]")),
         2 => data().prop_map(|d| format!("{{% set cap %}}({{{{ {d} }}}}){{% endset %}}{{% set cap2 %}}{{{{ cap }}}}{{{{ cap }}}}{{% endset %}}{{{{ cap2 }}}}")),
         2 => data().prop_map(|d| format!("{{{{ show({d}) }}}}")),
         2 => data().prop_map(|d| format!("{{% set r = show({d}) %}}{{{{ r }}}}{{{{ show(r) }}}}")),
